@@ -1,6 +1,7 @@
 package rules
 
 import (
+	"strings"
 	"go/constant"
 	"fmt"
 	"go/token"
@@ -153,6 +154,7 @@ func runC12(p *core.Program, r *core.Report) {
 	// stored fields unchanged (= C05 R5.3 accessor rules; an accessor that filters or copies selectively
 	// changes the character counts the caller observes)
 	r.Borrow("R12.2b", func() { checkTokenAccessors(p, r) })
+	checkFormattedOperands(p, r, fn)
 
 	// R12.3: a full index is 1 + 2k bytes; a success return in the full-kind branch must know len(index) is odd
 	fullVal := int64(-1)
@@ -465,4 +467,89 @@ func checkConsecutiveSlices(p *core.Program, r *core.Report, fn *ssa.Function, t
 		}
 	})
 	r.Floor("R12.2b", "token slices taken in loops", nSl, 3)
+}
+
+// checkFormattedOperands: a value handed to a fmt call is formatted by its own Format/String/Error/
+// GoString method when its type has one. For module types used in the decoder's messages such a
+// method is part of "never panics": it must not hand the same type back to fmt (endless re-entry:
+// stack overflow, which no recover catches) nor call itself.
+func checkFormattedOperands(p *core.Program, r *core.Report, dec *ssa.Function) {
+	name := core.FuncName(dec)
+	seen := map[string]bool{}
+	for _, c := range core.Calls(dec) {
+		cv, ok := c.(*ssa.Call)
+		if !ok || !strings.HasPrefix(core.CallName(cv), "fmt.") {
+			continue
+		}
+		var operands []ssa.Value
+		for _, a := range cv.Call.Args {
+			if sl, isSl := a.(*ssa.Slice); isSl {
+				if al, isAl := sl.X.(*ssa.Alloc); isAl {
+					for _, ref := range core.Referrers(al) {
+						if ia, ok := ref.(*ssa.IndexAddr); ok {
+							for _, r2 := range core.Referrers(ia) {
+								if st, ok := r2.(*ssa.Store); ok && st.Addr == ssa.Value(ia) {
+									operands = append(operands, st.Val)
+								}
+							}
+						}
+					}
+				}
+				continue
+			}
+			operands = append(operands, a)
+		}
+		for _, o := range operands {
+			if mi, ok := o.(*ssa.MakeInterface); ok {
+				o = mi.X
+			}
+			tn := core.NamedOf(o.Type())
+			if !strings.HasPrefix(tn, core.ModulePath+".") || seen[tn] {
+				continue
+			}
+			seen[tn] = true
+			short := strings.TrimPrefix(tn, core.ModulePath+".")
+			for _, m := range []string{"Format", "String", "Error", "GoString"} {
+				f := p.Method(short, m)
+				if f == nil || f.Blocks == nil {
+					continue
+				}
+				bad := ""
+				for _, c2 := range core.Calls(f) {
+					if core.StaticCallee(c2) == f {
+						bad = "calls itself"
+					}
+					if !strings.HasPrefix(core.CallName(c2), "fmt.") {
+						continue
+					}
+					for _, a := range c2.Common().Args {
+						vals := []ssa.Value{a}
+						if sl, isSl := a.(*ssa.Slice); isSl {
+							if al, isAl := sl.X.(*ssa.Alloc); isAl {
+								for _, ref := range core.Referrers(al) {
+									if ia, ok := ref.(*ssa.IndexAddr); ok {
+										for _, r2 := range core.Referrers(ia) {
+											if st, ok := r2.(*ssa.Store); ok && st.Addr == ssa.Value(ia) {
+												vals = append(vals, st.Val)
+											}
+										}
+									}
+								}
+							}
+						}
+						for _, v := range vals {
+							if mi, ok := v.(*ssa.MakeInterface); ok {
+								v = mi.X
+							}
+							if core.NamedOf(v.Type()) == tn {
+								bad = "hands a " + short + " back to " + core.CallName(c2) + " (re-enters itself)"
+							}
+						}
+					}
+				}
+				r.Check(bad == "", "R12.1", core.FuncName(f), "formatting method used by the decoder's messages terminates", p.Pos(f.Pos()), bad)
+			}
+		}
+	}
+	_ = name
 }
